@@ -192,3 +192,51 @@ def lxml_document_level_siblings(nb: int, pb: int, na: int, ni: int, nc: int) ->
         if fp != p:
             return False
     return True
+
+
+# --- added after round-3 seeded changes: same local name in different namespaces; paths of namespace nodes (default namespace too) --------
+
+NSS = ('', 'urn:p', 'urn:q')
+
+
+def _qn(ns, local):
+    return '{%s}%s' % (ns, local) if ns else local
+
+
+@ob(budget=300, bound='root r with 3 children: two with namespace from {none, urn:p, urn:q} x local name from {a, b} chosen by the solver, the third '
+                      'fixed to {urn:p}a; in-scope namespaces with or without a default namespace: every node path (elements and namespace '
+                      'nodes) and every etree_iter_paths path is unique and, evaluated as XPath 3.1, selects exactly its node',
+    funcs=['elementpath/etree.py:etree_iter_paths', N + ':NamespaceNode.path', N + ':ElementNode.path', 'elementpath/xpath30/_xpath30_functions.py:evaluate__path'])
+def namespaced_paths_select_their_node(n1: int, l1: int, n2: int, l2: int, dflt: bool) -> bool:
+    """
+    pre: 0 <= n1 <= 2 and 0 <= n2 <= 2 and 0 <= l1 <= 1 and 0 <= l2 <= 1
+    post: _
+    """
+    ns1, ns2 = NSS[_pick(n1, 2)], NSS[_pick(n2, 2)]
+    la, lb = 'ab'[_pick(l1, 1)], 'ab'[_pick(l2, 1)]
+    r = ET.Element('r')
+    kids = [ET.SubElement(r, _qn(ns1, la)), ET.SubElement(r, _qn(ns2, lb)), ET.SubElement(r, _qn('urn:p', 'a'))]
+    nsmap = {'p': 'urn:p', 'q': 'urn:q'}
+    if dflt:
+        nsmap[''] = 'urn:d'
+    parser = P31.__class__(namespaces=nsmap)
+    ctx = XPathContext(ET.ElementTree(r), namespaces=nsmap)
+    root = ctx.root
+    nodes = [n for n in _walk(root) if not isinstance(n, DocumentNode)]
+    relem = [n for n in nodes if getattr(n, 'elem', None) is r][0]
+    nodes += list(relem.namespace_nodes)
+    paths = [n.path for n in nodes]
+    if len(set(paths)) != len(paths):
+        return False
+    for n, p in zip(nodes, paths):
+        got = L(parser.parse(p).evaluate(XPathContext(root, namespaces=nsmap)))
+        if len(got) != 1 or got[0] is not n:
+            return False
+    ip = list(etree_iter_paths(r))
+    if len({p for _, p in ip}) != 4:
+        return False
+    for e, p in ip:
+        got = L(parser.parse(p).evaluate(XPathContext(root, item=relem, namespaces=nsmap)))
+        if len(got) != 1 or got[0].elem is not e:
+            return False
+    return True
